@@ -401,6 +401,10 @@ func (pg *peerGater) removePeerStats(p peer.ID, outbound bool) {
 	}
 	if st.connected == 0 {
 		st.expire = time.Now().Add(pg.params.RetainStats)
+	}
+	// the stats object is shared by all peers behind the same IP: a peer whose outbound
+	// stream is gone must be forgotten even while others keep the shared stats connected
+	if outbound || st.connected == 0 {
 		delete(pg.peerStats, p)
 	}
 }
